@@ -316,6 +316,7 @@ class Sim:
         self.vals = []  # completed results (Expr objects), kept alive
         self.done = []  # (callable, description) of completed plain constructions, for "again"
         self.req_tree = {}  # id(obj) -> request tree for arithmetic roots
+        self.req_roots = []
         self.keep = []  # every registered object, kept alive so that id() stays unique
         self.fingerprints = {}  # fingerprint -> object
         self.violations = []
@@ -404,7 +405,7 @@ class Sim:
         prev = self.fingerprints.get(fp)
         if prev is None:
             self.fingerprints[fp] = obj
-            self.states.add(digest_of([obj.kind, [o if isinstance(o, str) else type(o).__name__ for o in obj.operands]])[:8])
+            self.states.add(digest_of([obj.kind, [(o.kind if isinstance(o, self.Expr) else (o if isinstance(o, str) else canon_value(o)[0])) for o in obj.operands]])[:8])
         elif prev is not obj:
             self.violation("duplicate", obj.kind, a=repr(prev), b=repr(obj),
                            note="two distinct objects for one structure (same kind, same operand objects, same value bits)")
@@ -566,6 +567,7 @@ class Sim:
                     return
                 sub.append(t)
             self.req_tree[id(res)] = (op[1], *sub)
+            self.req_roots.append(res)
 
     def run_ops(self, ops, local=None):
         last = None
@@ -761,6 +763,15 @@ class Sim:
         tree = self.req_tree.get(id(root))
         tm = getattr(fa.targets, target)
         if tree is not None and target == "python" and ctx.alt is None:
+            return self.observe(root, tree, fault)
+        return self.plain_print(root, tm, fault)
+
+    def observe(self, root, tree, fault=None):
+        """Observable consequence: run the Python-target function of an arithmetic root against a direct
+        evaluation of the *requested* tree."""
+        fa, ctx = self.fa, self.ctx
+        tm = fa.targets.python
+        if True:
             names = []
             self.free_symbols(tree, names)
             if not names:
@@ -800,7 +811,10 @@ class Sim:
                 self.violation("observable", "python|" + ("signed-zero" if zero else "value"), inputs=env,
                                expected=repr(exp), generated_returns=repr(got), text=text[-600:])
             return None
+
+    def plain_print(self, root, tm, fault):
         # any other print: wraps the root and prints it (mutates props: ref names); no value oracle here
+        ctx = self.ctx
         names = ["x", "y", "z"]
         args = [ctx.symbol(n, "float").reference(ref_name=n) for n in names]
         fname = ctx.symbol("g").reference(ref_name="g")
@@ -849,6 +863,19 @@ def run_case(case):
     sim.log.ev("seed", case.get("seed"))
     sim.install_wrapper()
     sim.run_ops(case["ops"])
+    if sim.ctx.alt is None:
+        # observable consequence for the last few arithmetic roots of the history
+        done = set()
+        for root in sim.req_roots[::-1]:
+            if len(done) >= 3:
+                break
+            if id(root) in done:
+                continue
+            done.add(id(root))
+            try:
+                sim.observe(root, sim.req_tree[id(root)])
+            except (AssertionError, TypeError, ValueError, NotImplementedError, KeyError, AttributeError, NameError, SyntaxError) as e:
+                sim.bump(sim.stats, "observe_failed:" + type(e).__name__)
     try:
         sim.final_scan()
     except Exception as e:  # private layout changed: the scan is an extra, not the oracle
@@ -917,7 +944,7 @@ class Engine:
         "event inside expr.py/context.py/typesystem.py and the history continuing afterwards; distinct = digest of "
         "the literal op list; non-trivial = at least three constructions completed"
     )
-    state_measure = "distinct (kind, operand value/type shape) structures registered and fingerprinted"
+    state_measure = "distinct (kind, tuple of operand kinds / constant value types) shapes of completed constructions"
     components = {
         "real": ["Context", "Expr", "Type", "normalize/make_*", "Context.trace/call/__call__", "Expr.rewrite + rewrite module",
                  "target printers (python, numpy, stablehlo, cpp) and modifier_base expansion"],
